@@ -60,13 +60,14 @@ def _compute_dice_coefficient(
         indicate better overlap and similarity between masks.
     """
     intersection = np.logical_and(reference, prediction)
-    reference_mask = np.sum(reference)
-    prediction_mask = np.sum(prediction)
+    # count voxels exactly: np.sum of a float32/float16 mask accumulates in that dtype
+    reference_mask = np.count_nonzero(reference)
+    prediction_mask = np.count_nonzero(prediction)
 
     # Handle division by zero
     if reference_mask == 0 and prediction_mask == 0:
         return 0.0
 
     # Calculate Dice coefficient
-    dice = 2 * np.sum(intersection) / (reference_mask + prediction_mask)
+    dice = 2 * np.count_nonzero(intersection) / (reference_mask + prediction_mask)
     return dice
